@@ -44,7 +44,7 @@ def main():
             designs = [(r["program"], ["replay"])]
             ndes = 0
     for i in range(ndes):
-        lines, used = G.gen_design(rep.seed * 100003 + i, f"g{i}", extra_templates=("t_xovr", "t_edges"))
+        lines, used = G.gen_design(rep.seed * 100003 + i, f"g{i}", extra_templates=("t_xovr", "t_edges", "t_attached_reset"))
         designs.append((lines, used))
     ids = [d[0][0].split()[1] for d in designs]
     prog = {i: d[0] for i, d in zip(ids, designs)}
